@@ -400,13 +400,15 @@ class GateMonitor(WireTracker):
             return bool(self.sc.cfg.get("apps"))
         if variant == "vsa_acct":
             return any(a.get("acct") for a in self.sc.cfg.get("apps", []))
+        if variant and variant.startswith("v6p"):
+            return bool(self.sc.cfg.get("apps"))
         return bool(variant) and variant.startswith("p") and bool(self.sc.cfg.get("apps"))
 
     def judge_cea(self, s, st, variant, f):
         node = self.sc.nw.node
         vs = []
         rcode = f.result_code
-        if (variant.startswith("p") or variant == "vsa") and not self.sc.cfg.get("apps"):
+        if (variant.startswith("p") or variant.startswith("v6p") or variant == "vsa") and not self.sc.cfg.get("apps"):
             variant = "nocommon"
         if variant == "vsa_acct" and not self.acceptable(variant):
             variant = "nocommon"
